@@ -61,7 +61,7 @@ Qed.
 (** end() never consumes and returns by the documented rule: from an accepting state with nothing to do DONE,
     from a non-accepting one FAIL *)
 Theorem end_no_transition d q ts : nth_error (d_states d) q = Some (SNormal ts) -> select ts sym_end = None ->
-  step_tree d q sym_end = Leaf (LRet (if accepting d q then RDone else RFail) q false).
+  step_tree d q sym_end = Leaf (if accepting d q then LRet RDone q false else LRet RFail (fail_index d) false).
 Proof.
   intros Hn Hs. unfold step_tree, fuel_of. cbn [nf]. rewrite Hn, Hs. unfold source_return.
   unfold is_end. rewrite N.eqb_refl. destruct (accepting d q); reflexivity.
